@@ -12,8 +12,10 @@ Nothing here predicts what the library should do; it only records.
 from __future__ import annotations
 
 import asyncio
+import concurrent.futures
 import dataclasses
 import math
+import sys
 
 from . import env
 
@@ -133,7 +135,53 @@ class ScriptEmptyExc(Exception):
         return 0
 
 
-EXC_FAMILIES = ("plain", "runtime", "os", "frozen", "empty", "group")
+class ScriptTypeExc(TypeError):
+    def __init__(self, klass: str, idx: int, ra=None):
+        super().__init__(f"{klass}@{idx}")
+        self.rv_klass = klass
+        self.idx = idx
+        self.retry_after = ra
+
+
+class ScriptTimeoutExc(TimeoutError):
+    """The operation's own timeout error: a subclass of the built-in TimeoutError that the classifier tells apart."""
+
+    def __init__(self, klass: str, idx: int, ra=None):
+        super().__init__(f"{klass}@{idx}")
+        self.rv_klass = klass
+        self.idx = idx
+        self.retry_after = ra
+
+
+class ScriptPoolCancelled(concurrent.futures.CancelledError):
+    """concurrent.futures.CancelledError (Future.result() on a cancelled job): an ordinary Exception, unrelated to asyncio's."""
+
+    def __init__(self, klass: str, idx: int, ra=None):
+        super().__init__(f"{klass}@{idx}")
+        self.rv_klass = klass
+        self.idx = idx
+        self.retry_after = ra
+
+
+class ScriptBadStrExc(Exception):
+    """An error that cannot be rendered: str() and repr() of it raise."""
+
+    def __init__(self, klass: str, idx: int, ra=None):
+        super().__init__(f"{klass}@{idx}")
+        self.rv_klass = klass
+        self.idx = idx
+        self.retry_after = ra
+
+    def __str__(self):
+        # (only towards the library under test: the harness's own messages render it normally)
+        if "/redress/" in sys._getframe(1).f_code.co_filename.replace("\\", "/"):
+            raise AttributeError("'UpstreamError' object has no attribute 'code'")
+        return f"ScriptBadStrExc({self.rv_klass}@{self.idx})"
+
+    __repr__ = __str__
+
+
+EXC_FAMILIES = ("plain", "runtime", "os", "frozen", "empty", "group", "type", "timeout", "poolcancel", "badstr")
 
 
 def mk_script_exc(family, klass, idx, ra=None):
@@ -145,6 +193,14 @@ def mk_script_exc(family, klass, idx, ra=None):
         return ScriptFrozenExc(klass, idx, ra)
     if family == "empty":
         return ScriptEmptyExc(klass, idx, ra)
+    if family == "type":
+        return ScriptTypeExc(klass, idx, ra)
+    if family == "timeout":
+        return ScriptTimeoutExc(klass, idx, ra)
+    if family == "poolcancel":
+        return ScriptPoolCancelled(klass, idx, ra)
+    if family == "badstr":
+        return ScriptBadStrExc(klass, idx, ra)
     if family == "group":
         # what a TaskGroup / nursery with one failing child raises
         x = ExceptionGroup(f"{klass}@{idx}", [ScriptExc(klass, idx, ra)])
@@ -194,6 +250,29 @@ class OperatorInterrupt(KeyboardInterrupt, Exception):
 
 class ServiceExit(SystemExit, Exception):
     pass
+
+
+class ScriptAwaitableVal(ScriptVal):
+    """A success value that happens to be awaitable (a job handle, a Task, a lazy result): it is the value, not something to unwrap."""
+
+    __slots__ = ("awaited",)
+
+    def __await__(self):
+        self.awaited = True
+        return iter(())
+
+
+class ScriptResBadRepr(ScriptRes):
+    """A rejected result object that cannot be rendered (a closed file, a proxy whose backend is gone)."""
+
+    __slots__ = ()
+
+    def __repr__(self):
+        if "/redress/" in sys._getframe(1).f_code.co_filename.replace("\\", "/"):
+            raise ValueError("I/O operation on closed file.")
+        return f"ResBadRepr({self.rv_klass}@{self.idx})"
+
+    __str__ = __repr__
 
 
 def make_exc(name: str):
@@ -265,6 +344,11 @@ class QuotaClassification(Classification):
     """Classification is an ordinary frozen dataclass: applications subclass it to carry more to their strategies."""
 
     reset_in_s: float = 0.0
+
+
+class SizedTimeline(RetryTimeline):
+    def __len__(self):
+        return len(self.events)
 
 
 class _EmptyCallable:
@@ -537,6 +621,8 @@ class Harness:
                 v = -math.inf
             elif v == "hugeint":
                 v = 10**400  # a finite number of seconds that no float can hold
+            elif v == "-hugeint":
+                v = -(10**400)
             rec.trace.append(
                 ("strategy", name, attempt, klassname, prev, remaining, cause, ra, v, cls_ok, h.now())
             )
@@ -625,7 +711,7 @@ class Harness:
         o = e["outcomes"][i % len(e["outcomes"])]
         kind = o[0]
         if kind == "ok":
-            v = ScriptVal(i)
+            v = (ScriptAwaitableVal if self.sc.get("val_kind") == "odd" else ScriptVal)(i)
             rec.objs[i] = v
             return v
         if kind == "exc":
@@ -646,7 +732,7 @@ class Harness:
             rec.objs[i] = x
             raise x
         if kind == "res":
-            r = ScriptRes(o[1], i, o[2] if len(o) > 2 else None)
+            r = (ScriptResBadRepr if self.sc.get("val_kind") == "odd" else ScriptRes)(o[1], i, o[2] if len(o) > 2 else None)
             rec.objs[i] = r
             return r
         if kind == "res_none":
@@ -736,13 +822,17 @@ class Harness:
             i = h.count("handler")
             ds = rec.env.get("handler") or ["sleep"]
             d = ds[i % len(ds)]
+            spelled = None
+            if d.startswith("bogus:"):
+                # not a SleepDecision but the plain string that spells one ("sleep" / "defer" / "abort"): as invalid as any other answer
+                spelled, d = str(d.split(":", 1)[1]), "bogus"
             rec.trace.append(("handler", place, ctx.attempt, s, d))
             h.cb_fault("handler")
             hd = rec.env.get("handler_dur")
             if hd:
                 h.world.t += hd[i % len(hd)]  # a slow handler: time passes before the sleep starts
             if d == "bogus":
-                return "sleep-ish"
+                return "".join(spelled) if spelled else "sleep-ish"  # a fresh str object, never the enum member
             return SleepDecision(d)
 
         return handler
@@ -858,6 +948,11 @@ class Harness:
     def on_log(self, event, fields, rec=None):
         if self.sc.get("hook_edits_tags"):
             fields = {k: v for k, v in fields.items() if k != "rv_label" or v != (event, fields.get("attempt"))}  # this delivery's own label
+        if self.sc.get("hook_set") == "log":
+            # only a log sink is attached: what it receives is the run's event stream - mirrored as the metric-shaped record the view
+            # segments by (attempt and sleep_s are fields of the log record)
+            tg = {k: v for k, v in fields.items() if k not in ("attempt", "sleep_s")}
+            (rec or self.cur).trace.append(("metric", event, fields.get("attempt"), fields.get("sleep_s"), _tags(tg)))
         (rec or self.cur).trace.append(("log", event, _tags(fields)))
         self.hook_fault("log")
 
@@ -1051,6 +1146,11 @@ class Harness:
                 # a fresh pair of hook objects for every call, each tied to its own call's record
                 ckw["on_metric"] = self.shape(lambda event, attempt, sleep_s, tags, _r=rec: self.on_metric(event, attempt, sleep_s, tags, _r))
                 ckw["on_log"] = self.shape(lambda event, fields, _r=rec: self.on_log(event, fields, _r))
+        only = self.sc.get("hook_set", "both")
+        if only == "log":
+            ckw.pop("on_metric", None)  # just a log sink attached
+        elif only == "metric":
+            ckw.pop("on_log", None)
         if self.cfg.get("operation"):
             ckw["operation"] = self.cfg["operation"]
         if self.use_abort:
@@ -1101,6 +1201,9 @@ class Harness:
             if getattr(self, "_shared_timeline", None) is None:
                 self._shared_timeline = RetryTimeline()
             return self._shared_timeline
+        if self.sc.get("cb_shape") == "empty":
+            # the caller's own timeline type: a subclass that can be sized (len(timeline) == number of events), hence falsy while empty
+            return SizedTimeline()
         return RetryTimeline()
 
     def _deco_build(self, ckw, fn):
